@@ -6,7 +6,7 @@
     ----------------------------------------  ---------------------------
     _upgrade_ordering / _sorted_variables      sortVars
     Distribution.safe(iterable of variables)   (children := sortVars …)
-    Expression._get_key                        Expr.key            (tuples flattened to token lists)
+    Expression._get_key (total key, fixed)     exprKey
     Product.safe                               productSafe
     Sum.safe(…, simplify=…) / Sum.simplify     sumSafe / sumSimplify
     __mul__ of every expression class          mul
@@ -65,60 +65,76 @@ def interveneVar (zs : List Var) (v : Var) : Except Err Var :=
 /-- `Distribution.intervene` over a tuple of variables -/
 def interveneVars (zs : List Var) (vs : List Var) : Except Err (List Var) := vs.mapM (interveneVar zs)
 
-/-! ### sort keys (`_get_key`)
+/-! ### sort keys (`_get_key`, after the `fix:` commit of the `expr` family: total structural key)
 
-A Python key is a tuple of ints, strings, `Variable`s and tuples.  Tuples are compared lexicographically, a proper
-prefix being smaller; with the class tags in front, two keys never meet different atom types at the same position.
-Flattening `( a b )` into tokens with `close < open < atoms` turns that order into the plain lexicographic order of
-token lists. -/
+Same key as `Y0.Expr.key` of Y0.Model.Dsl (kept as a copy inside this namespace: the two DSL models are opened side by
+side in several files).  A Python key is a nested tuple of ints/strings; tuples compare lexicographically, a proper
+prefix being smaller. -/
 
-inductive Tok where
-  | close
-  | opn
-  | int (i : Int)
-  | str (n : Nat)
-  deriving DecidableEq, Repr, Inhabited
+inductive Key where
+  | atom (i : Int)
+  | tup (ks : List Key)
+  deriving Repr, Inhabited
 
-def Tok.rank : Tok → Nat
-  | .close => 0
-  | .opn => 1
-  | .int _ => 2
-  | .str _ => 3
+mutual
+def Key.cmp : Key → Key → Ordering
+  | .atom a, .atom b => compare a b
+  | .atom _, .tup _ => .lt
+  | .tup _, .atom _ => .gt
+  | .tup as, .tup bs => Key.cmpList as bs
+def Key.cmpList : List Key → List Key → Ordering
+  | [], [] => .eq
+  | [], _ :: _ => .lt
+  | _ :: _, [] => .gt
+  | a :: as, b :: bs =>
+    match Key.cmp a b with
+    | .lt => .lt
+    | .gt => .gt
+    | .eq => Key.cmpList as bs
+end
 
-def Tok.lt : Tok → Tok → Bool
-  | .int a, .int b => a < b
-  | .str a, .str b => a < b
-  | a, b => a.rank < b.rank
+def Key.lt (a b : Key) : Bool :=
+  match Key.cmp a b with
+  | .lt => true
+  | _ => false
 
-def tokLt : List Tok → List Tok → Bool
-  | [], [] => false
-  | [], _ :: _ => true
-  | _ :: _, [] => false
-  | a :: as, b :: bs => if a.lt b then true else if b.lt a then false else tokLt as bs
+def starCode : Option Bool → Int
+  | none => -1
+  | some false => 0
+  | some true => 1
 
-def starTok : Option Bool → Tok
-  | none => .int 0
-  | some false => .int 1
-  | some true => .int 2
+/-- `_variable_total_key`: (name, star as -1/0/1, isinstance Intervention, sorted (name, star) of the interventions) -/
+def varTotalKey (v : Var) : Key :=
+  .tup [.atom v.name, .atom (starCode v.star), .atom (if v.isIv then 1 else 0),
+        .tup (v.ivs.map fun i => .tup [.atom i.name, .atom (if i.star then 1 else 0)])]
 
-/-- tokens of the key WITHOUT the outer parentheses (what `*key` splices) -/
-def keyInner : Expr → List Tok
-  | .prob none c _ => [.int 0] ++ (match c with | v :: _ => [.str v.name] | [] => [])
-  | .prob (some pop) c _ =>
-      [.int (-1), .opn, .str pop.name, starTok pop.star, .close] ++ (match c with | v :: _ => [.str v.name] | [] => [])
-  | .sum e _ => .int 1 :: keyInner e
-  | .prod fs => .int 2 :: keyInnerList fs
-  | .frac n d => [.int 3, .opn] ++ keyInner n ++ [.close, .opn] ++ keyInner d ++ [.close]
-  | .one => [.int 4, .str 1]
-  | .zero => [.int 4, .str 0]
-  | .q _ _ => [.int 5]
-where
-  keyInnerList : List Expr → List Tok
-    | [] => []
-    | e :: es => [.opn] ++ keyInner e ++ [.close] ++ keyInnerList es
+def firstNameKey : List Var → Key
+  | [] => .tup []
+  | v :: _ => .atom v.name
+
+def minNameKey : List Var → Key
+  | [] => .tup []
+  | v :: vs => .atom (vs.foldl (fun m w => if w.name < m then w.name else m) v.name)
+
+mutual
+/-- `_get_key()` -/
+def exprKey : Expr → Key
+  | .prob none c p => .tup [.atom 0, firstNameKey c, .tup (c.map varTotalKey), .tup (p.map varTotalKey)]
+  | .prob (some pop) c p =>
+      .tup [.atom (-1), varTotalKey pop, firstNameKey c, .tup (c.map varTotalKey), .tup (p.map varTotalKey)]
+  | .prod fs => .tup (.atom 2 :: exprKeyList fs)
+  | .sum e r => .tup [.atom 1, exprKey e, .tup (r.map varTotalKey)]
+  | .frac n d => .tup [.atom 3, exprKey n, exprKey d]
+  | .one => .tup [.atom 4, .atom 1]
+  | .zero => .tup [.atom 4, .atom 0]
+  | .q d c => .tup [.atom (-5), minNameKey d, minNameKey c, .tup (d.map varTotalKey), .tup (c.map varTotalKey)]
+def exprKeyList : List Expr → List Key
+  | [] => []
+  | e :: es => exprKey e :: exprKeyList es
+end
 
 /-- `Expression.__lt__` -/
-def exprLt (a b : Expr) : Bool := tokLt (keyInner a) (keyInner b)
+def exprLt (a b : Expr) : Bool := Key.lt (exprKey a) (exprKey b)
 
 /-! ### structural equality (dataclass `__eq__`; `One() == One()`) -/
 
